@@ -68,6 +68,9 @@ def _strings(case):
     from vlib import sem
     tree = tup(case['tree'])
     spell = _spell_fn(case.get('spell'))
+    if case.get('raw'):
+        # the text handed to omega is NOT fully parenthesised; `tree` is its meaning by the documented precedence table
+        return case['raw'], None, tree
     if case.get('mode') == 'define':
         assert tree[0] == 'let'
         defs = '\n'.join(f'{n} == {sem.to_str(e, spell)}' for n, e in tree[1])
@@ -386,6 +389,34 @@ def construct_cases():
     add('division by constant', dI, cmp_('=', A('/', V('y'), N(2)), A('%', V('z'), N(-3))))
     add('constant by variable', dI, cmp_('=', A('/', N(5), V('x')), A('%', N(-7), V('y'))))
     add('nested arithmetic', dI, cmp_('<', A('*', A('+', V('x'), V('y')), A('-', V('z'), N(2))), A('%', A('*', V('z'), V('z')), A('+', V('x'), N(1)))))
+    # ---- unparenthesised formulas: their meaning is fixed by the documented precedence / associativity table
+    #      (doc/doc.md: <=> < => < ^ < \/ < /\ < = # < comparisons < + - < * / % < ~ ; binary operators associate left)
+    V_ = lambda n, p=False: ('var', n, p)
+
+    def raw(name, d, text, tree):
+        cs.append(dict(name='precedence ' + name, decl=d, raw=text, tree=tree))
+    x, y, z = V_('x'), V_('y'), V_('z')
+    a, b, c = B('a'), B('b'), B('c')
+    raw('minus then plus', dI, 'x - y + z >= 0', cmp_('>=', A('+', A('-', x, y), z), N(0)))
+    raw('minus minus', dI, 'x - y - z = 1', cmp_('=', A('-', A('-', x, y), z), N(1)))
+    raw('plus times', dI, 'x + y * z = 2', cmp_('=', A('+', x, A('*', y, z)), N(2)))
+    raw('times minus', dI, 'x * y - z < 3', cmp_('<', A('-', A('*', x, y), z), N(3)))
+    raw('minus times plus', dI, 'x - y * 2 + z >= 0', cmp_('>=', A('+', A('-', x, A('*', y, N(2))), z), N(0)))
+    raw('quotient times', dI, 'x / 2 * 3 = y', cmp_('=', A('*', A('/', x, N(2)), N(3)), y))
+    raw('remainder plus', dI, 'x % 3 + y = 1', cmp_('=', A('+', A('%', x, N(3)), y), N(1)))
+    raw('both sides', dI, 'x - 1 + y = z - y + 1', cmp_('=', A('+', A('-', x, N(1)), y), A('+', A('-', z, y), N(1))))
+    raw('comparison of sums', dI, 'x + 1 < y * 2', cmp_('<', A('+', x, N(1)), A('*', y, N(2))))
+    raw('or and', dB, 'a \\/ b /\\ c', bn('or', a, bn('and', b, c)))
+    raw('and or', dB, 'a /\\ b \\/ c', bn('or', bn('and', a, b), c))
+    raw('implies implies', dB, 'a => b => c', bn('implies', bn('implies', a, b), c))
+    raw('equiv implies', dB, 'a <=> b => c', bn('equiv', a, bn('implies', b, c)))
+    raw('not and', dB, '~ a /\\ b', bn('and', ('not', a), b))
+    raw('xor or', dB, 'a ^ b \\/ c', bn('xor', a, bn('or', b, c)))
+    raw('or implies and', dB, 'a \\/ b => c /\\ a', bn('implies', bn('or', a, b), bn('and', c, a)))
+    raw('equality and comparison', dM, 'x = y /\\ y < z \\/ a', bn('or', bn('and', cmp_('=', x, y), cmp_('<', y, z)), a))
+    raw('promela spellings', dB, 'a || b && ! c -> a', bn('implies', bn('or', a, bn('and', b, ('not', c))), a))
+    raw('primed operand in a sum', dP, "x' - x + 1 > y", cmp_('>', A('+', A('-', V_('x', True), x), N(1)), y))
+
     return cs
 
 
